@@ -281,6 +281,34 @@ class CasGen:
         self.mains = mains
         return self
 
+    def tsinfo(self):
+        """type -> {"super", "feats": {python name: spec with "xml" name}} for the independent readers"""
+        info = {
+            "uima.cas.TOP": {"super": None, "feats": {}},
+            "uima.cas.AnnotationBase": {"super": "uima.cas.TOP", "feats": {"sofa": {"xml": "sofa", "kind": "sofa"}}},
+            "uima.tcas.Annotation": {"super": "uima.cas.AnnotationBase", "feats": {
+                "begin": {"xml": "begin", "kind": "prim", "range": "uima.cas.Integer"},
+                "end": {"xml": "end", "kind": "prim", "range": "uima.cas.Integer"}}},
+            "uima.tcas.DocumentAnnotation": {"super": "uima.tcas.Annotation", "feats": {
+                "language": {"xml": "language", "kind": "prim", "range": "uima.cas.String"}}},
+        }
+        for kind, pr in (("FS", None), ("Integer", "uima.cas.Integer"), ("Float", "uima.cas.Float"), ("String", "uima.cas.String")):
+            info["uima.cas.%sList" % kind] = {"super": "uima.cas.TOP", "feats": {}}
+            info["uima.cas.Empty%sList" % kind] = {"super": "uima.cas.%sList" % kind, "feats": {}}
+            head = {"xml": "head", "kind": "ref", "range": "uima.cas.TOP"} if pr is None else {"xml": "head", "kind": "prim", "range": pr}
+            info["uima.cas.NonEmpty%sList" % kind] = {"super": "uima.cas.%sList" % kind, "feats": {
+                "head": head, "tail": {"xml": "tail", "kind": "ref", "range": "uima.cas.%sList" % kind}}}
+        for n in self.order:
+            feats = {}
+            for pn, sp in self.types[n]["feats"].items():
+                d = dict(sp)
+                d["xml"] = sp["name"]
+                if d["kind"] == "prim" and d["range"] == "x.Str":
+                    d["range"] = "uima.cas.String"
+                feats[pn] = d
+            info[n] = {"super": self.types[n]["super"], "feats": feats}
+        return info
+
     def scalar(self, ek):
         rng = self.rng
         if ek == "int":
